@@ -1,11 +1,12 @@
 """C12 -- a model's result does not depend on what happened earlier in the process."""
-from . import state
+from . import state, c06
 
 LEVEL = "other"
 EXPLANATION = ("Inventory of process-global mutable state of the core package (class-body counters / containers written through the class, "
                "module-level objects) against the reset routine that PEP.__init__ calls first; every verbosity guard encloses output only; "
                "no identity / hash / set-order / randomness / clock dependence anywhere in the package. Holds for every history because the "
-               "rules are about which cells exist and where they are re-initialised, not about particular models.")
+               "rules are about which cells exist and where they are re-initialised, not about particular models. The module-level null objects are shared by all "
+               "models: no arithmetic, in-place or comparison special method of the DSL classes writes to an operand (R-NOMUT).")
 TRUSTED = ["CPython ast", "effect summaries of sa/effects.py (writes classified by root object)"]
 ASSUMPTIONS = ["bit-for-bit equality of solver input follows from the absence of surviving state only structurally; numeric libraries are deterministic"]
 
@@ -14,6 +15,7 @@ def run(ctx):
     n = state.r_reset(ctx)
     v = state.r_verbose(ctx)
     state.r_determ(ctx)
+    c06.r_nomut(ctx, operands_only=True)   # null_point / null_expression are shared by every model: no operator (in-place ones included) writes to an operand
     state.r_memo(ctx, exits=False)  # module-level null objects (derived points / expressions) keep no value from an earlier model
     ctx.floor("class-level state cells", n, 11)
     ctx.floor("verbosity guards", v, 44)
